@@ -87,13 +87,11 @@ ApplyRule(C, rule, s, child) ==
     [] rule.k = "const"   -> rule.add
     [] rule.k = "lin"     -> (IF rule.arg = "" THEN rule.mul ELSE IntArg(C, s, rule.arg, rule.def)) * child + rule.add
 
-(* T is the static type the selections are written on ("" = unknown, only   *)
-(* reachable under a deviation).                                            *)
-(* DevSpreadNoTypePush: in inline mode today's visitor does not enter the   *)
-(* fragment's type condition at a *named* spread (visit_fragment_spread),   *)
-(* so the fields of the fragment are looked up on the type at the spread's  *)
-(* place: a rule declared on the fragment's type is missed (or a rule of    *)
-(* the outer object type is applied to a field selected on an interface).   *)
+(* T is the static type the selections are written on: the enclosing field's *)
+(* type, or the type condition of the innermost enclosing fragment -- for a  *)
+(* named spread the fragment's own type condition (a former deviation,       *)
+(* DevSpreadNoTypePush, kept the type at the spread's place; fixed in /repo  *)
+(* 43a3432 and removed here).                                                *)
 RECURSIVE CxSels(_, _, _, _)
 CxSels(C, T, sels, i) ==
   IF i > Len(sels) THEN 0
@@ -108,7 +106,7 @@ CxSels(C, T, sels, i) ==
                     IN ApplyRule(C, rule, s, child)
              ELSE IF s.k = "inline" THEN CxSels(C, IF s.on = "" THEN T ELSE s.on, s.sels, 1)
              ELSE IF ~HasFrag(C, s.name) THEN 0
-             ELSE CxSels(C, IF "DevSpreadNoTypePush" \in C.dev THEN T ELSE Frag(C, s.name).on, Frag(C, s.name).sels, 1)
+             ELSE CxSels(C, Frag(C, s.name).on, Frag(C, s.name).sels, 1)
        IN here + CxSels(C, T, sels, i + 1)
 
 ----------------------------------------------------------------------------
@@ -118,7 +116,7 @@ CxSels(C, T, sels, i) ==
 (* (5.8.5: a nullable variable may feed a non-null argument that has a default) and      *)
 (* executes with the argument's default.  The request is then refused whatever the       *)
 (* limits are.  CxErr follows the traversal of CxSels (same type bookkeeping, same       *)
-(* deviation switches) and says whether some rule evaluation hits such a variable.       *)
+(* switches) and says whether some rule evaluation hits such a variable.       *)
 UndefinedVarArg(C, s, a) ==
   HasArg(s, a) /\ ArgVal(s, a).k = "var" /\ ~Supplied(C, ArgVal(s, a).name)
   /\ ~(HasVarDef(C, ArgVal(s, a).name) /\ VarDef(C, ArgVal(s, a).name).hasDefault)
@@ -135,7 +133,7 @@ CxErr(C, T, sels, i) ==
                     IN (rule.k = "lin" /\ rule.arg # "" /\ UndefinedVarArg(C, s, rule.arg)) \/ CxErr(C, ft, s.sels, 1)
              ELSE IF s.k = "inline" THEN CxErr(C, IF s.on = "" THEN T ELSE s.on, s.sels, 1)
              ELSE IF ~HasFrag(C, s.name) THEN FALSE
-             ELSE CxErr(C, IF "DevSpreadNoTypePush" \in C.dev THEN T ELSE Frag(C, s.name).on, Frag(C, s.name).sels, 1)
+             ELSE CxErr(C, Frag(C, s.name).on, Frag(C, s.name).sels, 1)
        IN here \/ CxErr(C, T, sels, i + 1)
 
 ----------------------------------------------------------------------------
@@ -204,18 +202,6 @@ InliningLaw(C) == Measures(C) = Measures([C EXCEPT !.doc = InlinedDoc(C)])
 
 ----------------------------------------------------------------------------
 (* Trigger predicates of the deviations (the inputs on which each can show) *)
-\* a named spread whose fragment has a type condition different from the static type at the spread's place
-RECURSIVE SpreadMismatch(_, _, _, _)
-SpreadMismatch(C, T, sels, i) ==
-  IF i > Len(sels) THEN FALSE
-  ELSE LET s == sels[i] IN
-       \/ IF s.k = "field" THEN SpreadMismatch(C, IF HasField(C, T, s.name) THEN NamedOf(C.ts.types[T].fields[s.name].ty) ELSE "", s.sels, 1)
-          ELSE IF s.k = "inline" THEN SpreadMismatch(C, IF s.on = "" THEN T ELSE s.on, s.sels, 1)
-          ELSE IF HasFrag(C, s.name) THEN Frag(C, s.name).on # T \/ SpreadMismatch(C, Frag(C, s.name).on, Frag(C, s.name).sels, 1)
-          ELSE FALSE
-       \/ SpreadMismatch(C, T, sels, i + 1)
-TriggerSpreadNoTypePush(C) == \E j \in OpIdx(C) : SpreadMismatch(C, RootType(OpCtx(C, j)), C.doc.ops[j].sels, 1)
-
 RECURSIVE HasTypename(_, _, _)
 HasTypename(C, sels, i) ==
   IF i > Len(sels) THEN FALSE
@@ -224,7 +210,7 @@ HasTypename(C, sels, i) ==
           ELSE IF s.k = "inline" THEN HasTypename(C, s.sels, 1)
           ELSE HasTypename(C, SpreadSels(C, s), 1)
        \/ HasTypename(C, sels, i + 1)
-TriggerOmittedVarRuleError(C) == RuleError([C EXCEPT !.dev = {}]) \/ RuleError([C EXCEPT !.dev = {"DevSpreadNoTypePush"}])
+TriggerOmittedVarRuleError(C) == RuleError(C)
 TriggerTypenameNotCounted(C) == \E j \in OpIdx(C) : HasTypename(C, C.doc.ops[j].sels, 1)
 ----------------------------------------------------------------------------
 (***************************************************************************)
